@@ -7,6 +7,8 @@ import (
 	"path/filepath"
 	"testing"
 
+	"pgregory.net/rapid"
+
 	"verifharness/wsref"
 )
 
@@ -114,3 +116,12 @@ func TestC10(t *testing.T) { RunProp(t, "C10", "writefaults", genWFaultCase, che
 func TestC09(t *testing.T) { RunProp(t, "C09", "afterclose", genCloseCase, checkC09) }
 
 func TestC20(t *testing.T) { RunProp(t, "C20", "pool", genPoolCase, checkC20) }
+
+func TestC19(t *testing.T) {
+	RunProp(t, "C19", "prepared", func(rt *rapid.T) PrepCase { return genPrepCase(rt, false) }, checkC19)
+}
+
+// TestC19Conc runs in the -race binary: one PreparedMessage sent from many goroutines.
+func TestC19Conc(t *testing.T) {
+	RunProp(t, "C19", "prepared-concurrent", func(rt *rapid.T) PrepCase { return genPrepCase(rt, true) }, checkC19)
+}
